@@ -14,6 +14,7 @@ import (
 	"github.com/pdfcpu/pdfcpu/pkg/api"
 	"github.com/pdfcpu/pdfcpu/pkg/font"
 	"verif/ops"
+	"verif/simclock"
 	"verif/simfs"
 )
 
@@ -31,9 +32,13 @@ type Config struct {
 
 // MapSeed is the value the runtime's random sequence is restarted from for this configuration.
 func (c Config) MapSeed() uint64 {
+	// per operation, not per path relation or mode: a run and its reference run (the same operation
+	// into a fresh output) must walk their maps alike and read the same simulated time, otherwise
+	// results that legitimately depend on either (resource names assigned in walk order, dates)
+	// would differ between them
 	h := fnv.New64a()
-	h.Write([]byte(c.Op + "/" + c.Rel))
-	return h.Sum64() ^ c.MapSalt ^ (uint64(c.OutMode) << 40)
+	h.Write([]byte(c.Op))
+	return h.Sum64() ^ c.MapSalt
 }
 
 func (c Config) String() string {
@@ -156,6 +161,11 @@ func Run(cfg Config, opt Options) (*Result, error) {
 			return nil, err
 		}
 	}
+	// the sandbox is laid out by real pdfcpu calls too (a prepared input is written by pdfcpu): its
+	// bytes must not depend on what the process did before
+	runtime.VerifSetMapRand(cfg.MapSeed() ^ 0x5e7095e7)
+	simclock.Install(cfg.MapSeed())
+	defer simclock.Uninstall()
 	env, err := ops.Setup(o, cfg.Rel, root, mode)
 	if err != nil {
 		return nil, fmt.Errorf("setup %s: %w", cfg, err)
@@ -191,6 +201,7 @@ func Run(cfg Config, opt Options) (*Result, error) {
 		os.Chdir(env.Chdir)
 	}
 	runtime.VerifSetMapRand(cfg.MapSeed())
+	simclock.Install(cfg.MapSeed() + 1)
 	simfs.Activate(sim)
 	func() {
 		defer func() {
@@ -212,6 +223,16 @@ func Run(cfg Config, opt Options) (*Result, error) {
 	}
 	r.Events = sim.Events
 	r.Fired = sim.Fired
+	if lf := os.Getenv("VERIF_EVENTLOG"); lf != "" {
+		// debug aid (determinism work): one line per run, one per event
+		if f, err := os.OpenFile(lf, os.O_APPEND|os.O_CREATE|os.O_WRONLY, 0644); err == nil {
+			fmt.Fprintf(f, "RUN %s faults=%v events=%d err=%v\n", cfg, opt.Faults, len(sim.Events), r.Err != nil)
+			for _, e := range sim.Events {
+				fmt.Fprintf(f, "  %s\n", e.String())
+			}
+			f.Close()
+		}
+	}
 	r.S1 = simfs.TakeSnap(root)
 	if r.Err != nil || r.Panicked {
 		// classify new PDF files: complete (validates) or not; needed to tell a completed earlier
